@@ -18,7 +18,7 @@ LEVEL = ("Generated-input exploration over feature/target widths (smaller, equal
 BUDGET = {"quick": 1200, "thorough": 20000}
 RULE = ("Cases: n in max(f,g)+2..24 samples (thorough 60), f and g in 1..6, X normal (optionally with column scales), y either a noisy "
         "linear function of X or exactly X Q for a drawn (semi-)orthogonal Q; modes padded / projector; linear estimator default, "
-        "LinearRegression(no intercept) or Ridge(1e-10, no intercept); competitors: 8 random orthogonal matrices and 6 small "
+        "LinearRegression(no intercept) or Ridge(alpha in {1e-10, 1, 50}); competitors: 8 random orthogonal matrices and 6 small "
         "rotations (1e-2, 1e-3) of the fitted solution.  Non-trivial: f != g or a planted orthogonal map; distinct = SHA-1 of the "
         "canonical case.")
 ASSUMPTIONS = [
@@ -46,7 +46,7 @@ def strategy_(draw, tier):
     else:
         y = X @ gen.normal(draw, (f, g)) + draw(st.sampled_from([0.0, 0.3, 2.0])) * gen.normal(draw, (n, g))
     return {"X": X, "y": y, "planted": planted, "projector": draw(st.booleans()),
-            "estimator": draw(st.sampled_from(["default", "lr_noint", "ridge"])),
+            "estimator": draw(st.sampled_from(["default", "lr_noint", "ridge", "ridge1", "ridge50"])),
             "Xnew": gen.normal(draw, (5, f)) * draw(st.sampled_from([0.1, 1.0, 30.0])), "cseed": draw(gen.SEEDS),
             "prior_use": draw(st.booleans())}
 
@@ -73,7 +73,10 @@ def check(case, ctx):
     g = y.shape[1]
     ctx.cls("mode=%s" % ("projector" if proj else "padded"), "f%sg" % ("<" if f < g else "=" if f == g else ">"),
             "planted=%s" % case["planted"], "estimator=" + case["estimator"])
-    est = {"default": None, "lr_noint": LinearRegression(fit_intercept=False), "ridge": Ridge(alpha=1e-10, fit_intercept=False)}[case["estimator"]]
+    def mk_est():
+        return {"default": None, "lr_noint": LinearRegression(fit_intercept=False), "ridge": Ridge(alpha=1e-10, fit_intercept=False),
+                "ridge1": Ridge(alpha=1.0, fit_intercept=False), "ridge50": Ridge(alpha=50.0, fit_intercept=True)}[case["estimator"]]
+    est = mk_est()
     rng = np.random.default_rng(case["cseed"])
     if est is not None and case.get("prior_use", True):
         # the same estimator objects were used before, on other data of the same shape: nothing may carry over
@@ -98,8 +101,7 @@ def check(case, ctx):
         ctx.true("partial-isometry", bool(np.all(np.abs(sv[:r] - 1) <= 1e-8)), "singular values of the map: %s" % np.round(sv, 10))
         res = float(np.linalg.norm(y - pred))
         # competitors: rotations between the reduced spaces of the underlying linear fit
-        ref = {"default": LinearRegression(), "lr_noint": LinearRegression(fit_intercept=False),
-               "ridge": Ridge(alpha=1e-10, fit_intercept=False)}[case["estimator"]].fit(X, y)
+        ref = (mk_est() or LinearRegression()).fit(X, y)
         coef = np.reshape(ref.coef_.T, (f, -1))
         U, s, Vt = np.linalg.svd(coef, full_matrices=False)
         rr = U.shape[1]
@@ -117,7 +119,9 @@ def check(case, ctx):
                     break
         else:
             ctx.skip("projector: underlying linear fit is rank deficient")
-        if case["planted"]:
+        if case["planted"] and case["estimator"] in ("default", "lr_noint", "ridge"):
+            # recovery is claimed for an (essentially) exact underlying linear fit; a strongly regularised estimator shrinks
+            # the coefficient matrix and with it the reduced spaces
             ctx.true("recovery", res <= 1e-7 * ny, "planted orthogonal map not recovered: residual %.3e (|y| %.3e)" % (res, ny))
         ctx.true("pred-shape", pred.shape == (n, g), "predict shape %s" % (pred.shape,))
     else:
